@@ -5,10 +5,15 @@
   the wire format (after the encoder's own normalisation), it re-encodes without error and decoding
   the re-encoded bytes gives back every field unchanged except the fields the encoder normalises,
   which are shown (per run, on the regenerated layouts) to be only the header length and the two
-  documented defaults.  That a decoder's output *always* fits (`decoded_fits`) is not yet a theorem:
-  it is checked on the implementation over mutated canonical images (partial).
+  documented defaults.  `decode_fits` (Lemmas/DecodedFits.lean) shows that whatever a decoder
+  accepts does fit, so `C11_accepted_reencodes` states the property for arbitrary accepted octet
+  strings: junk after NULs, inconsistent but parseable counts, duplicate optional tags, extreme
+  values, maximum-length optional values are all just octet strings here.  Not covered by the
+  theorem (explored on the implementation): sgip12.Submit, whose encoder rewrites a count field
+  that a list item reads, and the two SMGP types of the open finding.
 -/
 import SmsVerif.Props.C01
+import SmsVerif.Lemmas.DecodedFits
 
 namespace SmsVerif.C11
 open SmsVerif SmsVerif.C01
@@ -66,6 +71,45 @@ theorem C11_same_fields_same_bytes (its : List Item) (a b : Rec)
     rw [itemsBytes_cons, itemsBytes_cons, it.bytes_congr (h it (by simp)),
       ih (fun x hx => h x (by simp [hx]))]
 
+/-! ### arbitrary accepted octet strings -/
+
+/-- PDU types outside `C11_accepted_reencodes`: the open SMGP finding, and sgip12.Submit (its
+    `UserCount` fix-up is read by the list item; for a decoded PDU the fix-up is the identity, which
+    is not yet proved in general) -/
+def notCovered : List String := exceptions ++ ["sgip12.Submit"]
+
+/-- per-run obligation: the static check of `decode_fits` accepts every other regenerated layout -/
+theorem layouts_decoded_fit :
+    (Gen.allPdus.filter (fun p => !notCovered.contains p.name)).all PduDesc.checkDecodedFits = true := by
+  decide +kernel
+
+/-- **C11_accepted_reencodes**: whatever octet string a decoder accepts, the decoded PDU re-encodes
+    without error, and decoding the re-encoded octets gives the same PDU again in every field the
+    encoder does not normalise (those are listed by `C11_normalisations_are_documented`); the header
+    length field holds the size of the re-encoded image. -/
+theorem C11_accepted_reencodes (p : PduDesc) (hp : p ∈ Gen.allPdus) (hx : notCovered.contains p.name = false)
+    (data : Bytes) (hoct : ∀ x ∈ data, x < 256) (r : Rec) (hdec : p.decode data = .ok r) :
+    ∃ lf its, p.items = some (lf, its) ∧
+      ((itemsBytes (norm its r) its).length + 4 < 2 ^ 32 →
+        ∃ bs r2, (∃ r', p.encode r = .ok (bs, r')) ∧ p.decode bs = .ok r2 ∧
+          ∀ ft ∈ p.fields, ft.1 ∉ allTargets its → ¬ (p.fin = .withLength ∧ ft.1 = lf) →
+            r2.get? ft.1 = r.get? ft.1) := by
+  have hx1 : exceptions.contains p.name = false := by
+    simp only [notCovered, List.contains_iff_mem, List.mem_append, Bool.eq_false_iff, ne_eq] at hx ⊢
+    intro h; exact hx (by simp [h])
+  have hchk := List.all_eq_true.1 layouts_decoded_fit p (List.mem_filter.2 ⟨hp, by rw [hx]; rfl⟩)
+  obtain ⟨lf, its, hits, hfit⟩ := decode_fits p hchk data hoct r hdec
+  obtain ⟨lf', its', hits', hst⟩ := C11_stable_partial p hp hx1
+  rw [hits] at hits'
+  simp only [Option.some.injEq, Prod.mk.injEq] at hits'
+  obtain ⟨rfl, rfl⟩ := hits'
+  exact ⟨lf, its, hits, fun hsz => hst r hfit hsz⟩
+
+/-- non-vacuity: a CMPP 3.0 deliver-response image with junk in every field is accepted, and the
+    theorem's premises hold for it -/
+example : (match Gen.cmpp30_DeliverResp.decode (be 4 24 ++ be 4 0x80000005 ++ be 4 7 ++ be 8 0x1122334455667788 ++ be 4 9) with
+    | .ok _ => true | _ => false) = true := by decide +kernel
+
 end SmsVerif.C11
 
 section
@@ -73,4 +117,6 @@ open SmsVerif.C11
 #print axioms C11_stable_partial
 #print axioms C11_normalisations_are_documented
 #print axioms C11_same_fields_same_bytes
+#print axioms C11_accepted_reencodes
+#print axioms layouts_decoded_fit
 end
